@@ -9,6 +9,7 @@ CONSTANTS
   RemotePrunes <- TR_RemotePrunes
   Policies = {"auto", "explicit"}
   ResetHeights <- TR_ResetHeights
+  Defect_ReadBeforePermit = FALSE
 INVARIANTS
   TypeOK
   LocksConsistent
@@ -17,6 +18,7 @@ INVARIANTS
   PrunedOnlyBelowPruneOp
   CursorIsMaxOfAcked
   OnlyOwnTopicAcked
+  ForeignNeverPastCheck
   ReplayExact
   ReplayQueueCoversExpect
   NeverForgotten
